@@ -1710,3 +1710,63 @@ enum ConnectionStatus {
     /// The node has disconnected
     Disconnected,
 }
+
+#[cfg(feature = "verif-hooks")]
+impl Service {
+    /// Verification hook: identical to `spawn`, but the handler is replaced by a pair of
+    /// channels that the caller scripts.
+    #[allow(clippy::type_complexity)]
+    pub(crate) fn spawn_scripted(
+        local_enr: Arc<RwLock<Enr>>,
+        enr_key: Arc<RwLock<CombinedKey>>,
+        kbuckets: Arc<RwLock<KBucketsTable<NodeId, Enr>>>,
+        config: Config,
+    ) -> (
+        oneshot::Sender<()>,
+        mpsc::Sender<ServiceRequest>,
+        mpsc::UnboundedReceiver<HandlerIn>,
+        mpsc::Sender<HandlerOut>,
+    ) {
+        let ip_votes = if config.enr_update {
+            Some(IpVote::new(
+                config.enr_peer_update_min,
+                config.vote_duration,
+            ))
+        } else {
+            None
+        };
+        let ip_mode = IpMode::new_from_listen_config(&config.listen_config);
+        let (handler_send, handler_in_rx) = mpsc::unbounded_channel();
+        let (handler_out_tx, handler_recv) = mpsc::channel(1000);
+        let (discv5_send, discv5_recv) = mpsc::channel(30);
+        let (exit_send, exit) = oneshot::channel();
+        let connectivity_state = ConnectivityState::new(config.auto_nat_listen_duration);
+        config
+            .executor
+            .clone()
+            .expect("Executor must be present")
+            .spawn(Box::pin(async move {
+                let mut service = Service {
+                    local_enr,
+                    enr_key,
+                    kbuckets,
+                    queries: QueryPool::new(config.query_timeout),
+                    active_requests: Default::default(),
+                    active_nodes_responses: HashMap::new(),
+                    ip_votes,
+                    handler_send,
+                    handler_recv,
+                    handler_exit: None,
+                    peers_to_ping: HashSetDelay::new(config.ping_interval),
+                    discv5_recv,
+                    event_stream: None,
+                    exit,
+                    config: config.clone(),
+                    ip_mode,
+                    connectivity_state,
+                };
+                service.start().await;
+            }));
+        (exit_send, discv5_send, handler_in_rx, handler_out_tx)
+    }
+}
